@@ -1036,6 +1036,16 @@ func (e *Engine) isNilTerm(st *State, v Value) Term {
 		}
 		return TFalse
 	case VAbs:
+		if a.Kind == "json" {
+			if jt, ok := a.Data.(Term); ok {
+				return Eq(jt, mkT("JNULL", SJson))
+			}
+		}
+		if a.Kind == "strslice" {
+			if ss, ok := a.Data.(*StrSlice); ok && ss.Nil.S != "" {
+				return ss.Nil
+			}
+		}
 		if to, ok := a.Data.(*TimerObj); ok {
 			return to.NilT
 		}
